@@ -31,7 +31,8 @@ def nested(d):
 
 def build_parsedrv():
     import shutil
-    d = os.path.join(VERIF, "drivers", "parsedrv")
+    import vcommon
+    d = vcommon.crate_src("drivers/parsedrv")
     lock = os.path.join(REPO, "Cargo.lock")
     if os.path.exists(lock):
         shutil.copyfile(lock, os.path.join(d, "Cargo.lock"))
